@@ -1390,6 +1390,13 @@ func (x *Exec) libFacts(st *State, name string, args, rs []Val) {
 			st.assume(Eq(perr.T, NilIface))
 			x.funcsUsed["assume:go-digest: FromBytes/FromString return a digest that Parse accepts"] = true
 		}
+	case "math/bits.OnesCount8", "math/bits.OnesCount16", "math/bits.OnesCount32", "math/bits.OnesCount64", "math/bits.OnesCount":
+		if len(rs) == 1 && rs[0].T.Sort == "Int" {
+			st.assume(And(Le(IntLit(0), rs[0].T), Le(rs[0].T, IntLit(64))))
+			if name == "math/bits.OnesCount8" {
+				st.assume(Le(rs[0].T, IntLit(8)))
+			}
+		}
 	case "encoding/json.Unmarshal":
 		// success means the whole input was one well-formed JSON document
 		// (trailing data is an error for Unmarshal, unlike Decoder.Decode)
